@@ -191,6 +191,53 @@ def phase2(workers):
         list(ex.map(work, range(workers)))
     print('phase 2 done', flush=True)
 
+def report():
+    p1 = [json.loads(l) for l in open(f'{SCR}/phase1.jsonl')]
+    p2 = [json.loads(l) for l in open(f'{SCR}/phase2.jsonl')]
+    tri_path = '/verif/seeded/mutation/triage.json'
+    tri = json.load(open(tri_path)) if os.path.exists(tri_path) else {}
+    os.makedirs('/verif/seeded/mutation', exist_ok=True)
+    from collections import Counter
+    st = Counter(m['status'] for m in p1)
+    caught = [m for m in p2 if m['alarms']]
+    silent = [m for m in p2 if not m['alarms']]
+    with open('/verif/seeded/mutation/survivors.jsonl', 'w') as f:
+        for m in p2:
+            m = {k: v for k, v in m.items() if k != 'raw'}
+            f.write(json.dumps(m) + '\n')
+    per_check = Counter(a for m in caught for a in m['alarms'])
+    out = []
+    out.append('# One-token mutation campaign against the quick checks\n')
+    out.append('Produced by `tools/mutate.py` (suite -> checks -> report) on /repo HEAD `%s` with the harness of /verif `%s`.\n' % (
+        subprocess.check_output(['git', '-C', REPO, 'rev-parse', '--short', 'HEAD']).decode().strip(),
+        subprocess.check_output(['git', '-C', '/verif', 'rev-parse', '--short', 'HEAD']).decode().strip()))
+    out.append('Mutation operators: relational / logical / arithmetic operator swaps, constants 0/1/2, true/false, Less/Greater/Equal, min/max, Including/Excluding, Lower/Upper, any/all, is_some/is_none, operator-kind swaps, dropped `.rev()` / `.flatten()`, field swaps (major/minor/patch, lower/upper, pre_release/build), MAX_SAFE_INTEGER and MAX_LENGTH +-1, space0/space1, dropped `!` — on every non-test, non-hook line of src/lib.rs and src/range.rs.\n')
+    out.append('| | count |\n|---|---|')
+    out.append('| mutants generated | %d |' % len(p1))
+    out.append('| do not compile | %d |' % st['nocompile'])
+    out.append("| killed by the repository's own suite (133 unit + 5 doc tests) | %d |" % (st['killed'] + st['timeout']))
+    out.append("| **survive the repository's suite** | **%d** |" % st['survived'])
+    out.append('| of those: at least one quick check alarms | %d |' % len(caught))
+    out.append('| of those: no quick check alarms | %d |' % len(silent))
+    out.append('')
+    out.append('Alarms per check over the suite-surviving mutants: ' + ', '.join('%s %d' % (k, per_check[k]) for k in sorted(per_check)) + '.\n')
+    out.append('## Suite-surviving mutants no quick check flags — triage\n')
+    out.append('Classes: **equivalent** (no observable change at all), **outside** (observable, but no clause of C01-C18 speaks about it), **missed** (a property is broken and no check saw it; each of these led to a strengthening, see the note).\n')
+    out.append('| id | site | change | class | note |\n|---|---|---|---|---|')
+    cl = Counter()
+    for m in silent:
+        t = tri.get(m['id'], {})
+        cl[t.get('class', 'untriaged')] += 1
+        out.append('| %s | %s:%d | `%s` -> `%s` | %s | %s |' % (m['id'], m['file'], m['line'], m['old'].strip(), m['new'].strip() or '(removed)', t.get('class', 'untriaged'), t.get('note', '')))
+    out.append('')
+    out.append('Totals: ' + ', '.join('%s %d' % kv for kv in sorted(cl.items())) + '.\n')
+    out.append('## Suite-surviving mutants flagged by the checks\n')
+    out.append('| site | change | line after the change | alarming checks |\n|---|---|---|---|')
+    for m in caught:
+        out.append('| %s:%d | `%s` -> `%s` | `%s` | %s |' % (m['file'], m['line'], m['old'].strip(), m['new'].strip() or '(removed)', m['text'].strip().replace('|', '\\|')[:100], ' '.join(m['alarms'])))
+    open('/verif/seeded/MUTATION.md', 'w').write('\n'.join(out) + '\n')
+    print('\n'.join(out[:16]))
+
 if __name__ == '__main__':
     cmd = sys.argv[1] if len(sys.argv) > 1 else 'list'
     if cmd == 'list':
@@ -202,3 +249,5 @@ if __name__ == '__main__':
         phase1(int(sys.argv[2]) if len(sys.argv) > 2 else 4)
     elif cmd == 'checks':
         phase2(int(sys.argv[2]) if len(sys.argv) > 2 else 2)
+    elif cmd == 'report':
+        report()
